@@ -101,6 +101,11 @@ type loaded struct {
 	SSA    map[string]*ssa.Package
 	AllFns []*ssa.Function
 	nFiles int
+	// helper inlining (inline.go)
+	Tops        []*ssa.Function
+	inlineNotes []string
+	inlineErrs  []string
+	dropped     map[*ssa.Function]bool
 }
 
 // loadRepo type-checks the product packages of the repository's current
@@ -164,18 +169,14 @@ func loadRepo(dir string) (*loaded, error) {
 			l.SSA[p.PkgPath] = spkgs[i]
 		}
 	}
-	// collect all functions with bodies in product packages
+	// collect all declared functions with bodies in product packages
 	seen := map[*ssa.Function]bool{}
-	var addFn func(f *ssa.Function)
-	addFn = func(f *ssa.Function) {
+	addTop := func(f *ssa.Function) {
 		if f == nil || seen[f] || f.Blocks == nil {
 			return
 		}
 		seen[f] = true
-		l.AllFns = append(l.AllFns, f)
-		for _, a := range f.AnonFuncs {
-			addFn(a)
-		}
+		l.Tops = append(l.Tops, f)
 	}
 	for _, pp := range productPkgs {
 		sp := l.SSA[pp]
@@ -185,21 +186,40 @@ func loadRepo(dir string) (*loaded, error) {
 		for _, m := range sp.Members {
 			switch m := m.(type) {
 			case *ssa.Function:
-				addFn(m)
+				addTop(m)
 			case *ssa.Type:
 				for _, T := range []types.Type{m.Type(), types.NewPointer(m.Type())} {
 					ms := prog.MethodSets.MethodSet(T)
 					for i := 0; i < ms.Len(); i++ {
 						f := prog.MethodValue(ms.At(i))
 						if f != nil && f.Pkg == sp && f.Synthetic == "" {
-							addFn(f)
+							addTop(f)
 						}
 					}
 				}
 			}
 		}
 	}
-	sort.Slice(l.AllFns, func(i, j int) bool { return l.AllFns[i].Pos() < l.AllFns[j].Pos() })
+	sort.Slice(l.Tops, func(i, j int) bool { return l.Tops[i].Pos() < l.Tops[j].Pos() })
+	// functions that are not in the baseline are inlined into their callers
+	var dropped map[*ssa.Function]bool
+	if os.Getenv("GVERIF_NOINLINE") == "" {
+		dropped, l.inlineNotes, l.inlineErrs = inlineHelpers(l.Tops)
+	}
+	l.dropped = dropped
+	var addFn func(f *ssa.Function)
+	addFn = func(f *ssa.Function) {
+		l.AllFns = append(l.AllFns, f)
+		for _, a := range f.AnonFuncs {
+			addFn(a)
+		}
+	}
+	for _, f := range l.Tops {
+		if !dropped[f] {
+			addFn(f)
+		}
+	}
+	sort.SliceStable(l.AllFns, func(i, j int) bool { return l.AllFns[i].Pos() < l.AllFns[j].Pos() })
 	return l, nil
 }
 
@@ -209,6 +229,10 @@ func newCtx(prop, tier string, l *loaded) *Ctx {
 		started: time.Now(), mins: map[string]int{}, fnIndexes: map[*ssa.Function]*FnIndex{},
 		extra: map[string]interface{}{}}
 	c.loadKnown()
+	c.notes = append(c.notes, l.inlineNotes...)
+	for i, e := range l.inlineErrs {
+		c.obs = append(c.obs, Obligation{Rule: "A0-helper-inlining", Key: fmt.Sprintf("inliner-error-%d", i), OK: false, Detail: e})
+	}
 	return c
 }
 
@@ -473,6 +497,14 @@ func (c *Ctx) Finish(meta propMeta) int {
 			cov["selftest"] = v
 		}
 	}
+	if st := os.Getenv("GVERIF_REFACTEST"); st != "" {
+		var v interface{}
+		if json.Unmarshal([]byte(st), &v) == nil {
+			cov["refactorings"] = v
+		}
+	}
+	// "extra" keys that do not belong into the coverage object
+	delete(cov, "mutexNames")
 	seed := 0
 	fmt.Sscanf(os.Getenv("VERIF_SEED"), "%d", &seed)
 	ev := evidence{PropertyID: c.Prop, Tier: c.Tier, Seed: seed, Level: "other", Coverage: cov,
